@@ -147,10 +147,11 @@ let options_of (s : ostring) : options = match split ';' s with
         opt_metadata = (meta = "1"); opt_greasy = (greasy = "1") }
   | _ -> failwith "options"
 let kind_of = function "T" -> L4Tcp | "U" -> L4Udp | _ -> L4Other
-(* items separated by '|': P~ts~kind~v6~src~dst~smac~dmac~sport~dport~seq~data~proto~seg~sum  or  D~secrets *)
+(* items separated by '|': P~ts[.tsid]~kind~v6~src~dst~smac~dmac~sport~dport~seq~data~proto~seg~sum  or  D~secrets *)
 let item_of (s : ostring) : item = match split '~' s with
-  | ["P"; ts; k; v6; src; dst; smac; dmac; sp; dp; seq; data; proto; sg; sum] ->
-      IPacket { p_ts = z_of_hex ts; p_kind = kind_of k; p_v6 = (v6 = "1"); p_src = bytes_of_hex src; p_dst = bytes_of_hex dst;
+  | ["P"; ts0; k; v6; src; dst; smac; dmac; sp; dp; seq; data; proto; sg; sum] ->
+      let ts, tsid = (match split '.' ts0 with [a; b] -> (a, b) | _ -> (ts0, ts0)) in
+      IPacket { p_ts = z_of_hex ts; p_tsid = z_of_hex tsid; p_kind = kind_of k; p_v6 = (v6 = "1"); p_src = bytes_of_hex src; p_dst = bytes_of_hex dst;
                 p_smac = bytes_of_hex smac; p_dmac = bytes_of_hex dmac; p_sport = z_of_hex sp; p_dport = z_of_hex dp; p_seq = z_of_hex seq;
                 p_data = bytes_of_hex data; p_proto = z_of_hex proto; p_seg = bytes_of_hex sg; p_sum = z_of_hex sum }
   | ["D"; secs] -> IDsb (secrets_of secs)
